@@ -101,7 +101,7 @@ def py_select(w: int, chain):
             sel = bits[slice(start, stop, step)]
             if not sel:
                 return None, "must-reject"
-            if not (inb and step in (None, 1)):
+            if not inb:
                 must_accept = False
             bits = sel
     return bits, ("must-accept" if must_accept else "reject-or-correct")
